@@ -309,7 +309,14 @@ def r3_pairing(ctx):
                 ctx.ob("R3", "write_attribute:target", tgt is not None and tgt[0] == "agg" and tgt[2] == "DoubleQAttr", "the value is escaped for the quote that is written ('\"' -> DoubleQAttr)", config=cfg)
 
 
-RULES = [("R1", r1_sinks), ("R2", r2_xmlname), ("R3", r3_pairing)]
+def r4_quote_target(ctx):
+    """the quoting context (text / double-quoted attribute) is decided once and inherited by every derived serializer"""
+    import quote
+    for cfg, F in ctx.facts.items():
+        quote.check(ctx, "R4", F, cfg)
+
+
+RULES = [("R1", r1_sinks), ("R2", r2_xmlname), ("R3", r3_pairing), ("R4", r4_quote_target)]
 
 
 def THOROUGH_EXTRA(ctx):
